@@ -1,5 +1,5 @@
 #!/usr/bin/env python3
-"""gen_bpm.py SEED [--no-exhaustive] [--random N] [--trees N] > opsfile
+"""gen_bpm.py SEED [--no-exhaustive] [--random N] [--trees N] [--matrices N] [--soft [--lenterm]] > opsfile
 
 Op lines for slice B (bit-parallel edit distance, pairwise distances, UPGMA guide tree); feed to tools/corr.py.
 
@@ -354,6 +354,21 @@ def main():
         nmat = int(args[args.index("--matrices") + 1])
     rng = random.Random(1000003 * seed + 17)
     out = []
+    if "--soft" in args:
+        # the SoftF32 twins (Model/TreeSoft.lean): the dist_matrix / tree / upgma lines of this generator under the op names
+        # dist_matrix_soft / tree_soft / upgma_soft; --lenterm adds f32_lenterm for every s in 0..10010 and samples above
+        ren = {"dist_matrix": "dist_matrix_soft", "tree": "tree_soft", "upgma": "upgma_soft"}
+        for line in trees(rng, ntree) + matrices(rng, nmat):
+            op, _, rest = line.partition(" ")
+            if op in ren:
+                out.append(ren[op] + " " + rest)
+        if "--lenterm" in args:
+            out += ["f32_lenterm %d" % s for s in range(0, 10011)]
+            out += ["f32_lenterm %d" % rng.randrange(10011, 2 ** 31) for _ in range(200)]
+            out += ["f32_lenterm 2147483647", "f32_lenterm 2147483648", "f32_lenterm -1", "f32_lenterm 1x", "f32_lenterm"]
+        out += ["upgma_soft 2 00000000,00000000", "upgma_soft 1 7fc00000", "upgma_soft 0 -", "tree_soft", "dist_matrix_soft"]
+        sys.stdout.write("\n".join(out) + "\n")
+        return
     if "--no-exhaustive" not in args:
         out += exhaustive()
     out += randoms(rng, nrand)
